@@ -182,6 +182,7 @@ type Worker struct {
 
 	funcsSeen map[*ssa.Function]bool
 	timerVals map[*value]*timer
+	pathOpen  bool
 	m         *models // sync/time/thread models, reset per path
 }
 
@@ -650,7 +651,13 @@ func (w *Worker) resetPath(prefix []dec) {
 	w.notes = nil
 	w.violated = false
 	w.timerVals = nil
-	w.sol.reset()
+	if w.pathOpen {
+		w.sol.send("(pop 1)")
+	} else {
+		w.sol.reset()
+	}
+	w.sol.send("(push 1)")
+	w.pathOpen = true
 }
 
 func (w *Worker) loop() {
